@@ -223,7 +223,7 @@ class ProgramResult:
 
 
 def bundle_dir(prop, prog, tag):
-    h = hashlib.sha1((prog.backend + "|" + prog.query + "|" + tag).encode()).hexdigest()[:12]
+    h = hashlib.sha1((prog.backend + "|" + prog.query + "|" + tag + ("|twice" if "twice" in prog.tags else "")).encode()).hexdigest()[:12]
     d = REPLAY_ROOT / prop / h
     return d
 
@@ -354,7 +354,7 @@ class Analyzer:
         if "selfcomp" in self.want:
             return self._analyse_selfcomp(prog, r, patches)
         try:
-            pkg = translate(prog.query, prog.backend, fold_neg="fold_neg" in prog.tags)
+            pkg = translate(prog.query, prog.backend, fold_neg="fold_neg" in prog.tags, twice="twice" in prog.tags)
         except TranslationRaised as e:
             r.status = "raised"
             r.detail = str(e)
@@ -458,7 +458,7 @@ class Analyzer:
         from .model import Event
         from .equiv import row_eq
         try:
-            pkg = translate(prog.query, prog.backend, fold_neg="fold_neg" in prog.tags)
+            pkg = translate(prog.query, prog.backend, fold_neg="fold_neg" in prog.tags, twice="twice" in prog.tags)
         except TranslationRaised as e:
             r.status, r.detail = "raised", str(e)
             return
